@@ -80,6 +80,9 @@ def text_value(draw, min_size=3, max_size=16, exact=None, alphabet_mid=TEXT_MID)
         v = v[:k] + draw(st.sampled_from(NONHEX_LETTERS)) + v[k + 1 :]
     if v in _reserved() or v.lower() in ("peeras",):
         v = v + draw(st.sampled_from(NONHEX_LETTERS))
+    if exact is None and alphabet_mid is TEXT_MID and draw(st.integers(0, 11)) == 0:
+        # an opening bracket at the end / a closing one at the start is part of the secret, not enclosing text
+        v = draw(st.sampled_from([v + "{", v + "[", "]" + v, "}" + v, v + "[{"]))
     return v
 
 
@@ -144,13 +147,29 @@ def sha512_value(draw):
 
 
 @st.composite
-def j9_value(draw, plain=None):
+def j9_value(draw, plain=None, damaged=None):
     if plain is None:
         plain = draw(chars(TEXT_END + ".:/", 1, 14))
     sc = draw(st.sampled_from(J.ALPHABET))
     n = J.filler_len(sc)
     fill = "".join(draw(st.lists(st.sampled_from(J.ALPHABET), min_size=n, max_size=n)))
-    return J.encode(plain, sc, fill)
+    v = J.encode(plain, sc, fill)
+    if damaged is None:
+        damaged = draw(st.integers(0, 9)) == 0
+    if damaged and len(v) > 6:
+        # a $9$-shaped secret that the Junos decoder refuses (cut inside its last group, or one character
+        # outside the alphabet): still a secret of the $9$ class for netconan, keyed by its own text
+        if draw(st.booleans()):
+            v = v[:-1]
+        else:
+            k = draw(st.integers(5, len(v) - 1))
+            v = v[:k] + draw(st.sampled_from("_+=")) + v[k + 1 :]
+        try:
+            J.decode(v)
+            v = v[:-1] + "_"  # (cutting one character can leave a well-formed shorter string)
+        except ValueError:
+            pass
+    return v
 
 
 CLASSES = ["text", "numeric", "hex", "type7", "md5", "sha512", "j9"]
